@@ -192,10 +192,16 @@ class RefPI:
         self.it = 0
 
     def evaluate(self, pol, V):
+        """Documented truncated evaluation.  Sets self.ambiguous when a stop decision fell inside
+        the guard band (relative 1e-6 of the threshold, or the rounding noise of the values)."""
+        self.ambiguous = False
         for _ in range(self.mei):
             Vn = self.m.policy_backup(V, pol, self.gamma)
             d = Vn - V
             meas = span(d) if self.test == "span" else float(np.max(np.abs(d)))
+            noise = 1e-6 * self.threshold + 1e-12 * max(1.0, float(np.max(np.abs(Vn))))
+            if abs(meas - self.threshold) <= noise:
+                self.ambiguous = True
             if meas < self.threshold:
                 break
             V = Vn
